@@ -254,7 +254,8 @@ def set_metasub(bp, k, r):
 def inside_meta(bp, k, r):
     """A scalar parameter changes inside a configuration flagged as meta (k = that configuration)"""
     node = bp["nodes"][k]
-    if node.get("meta") is not True:
+    if node.get("meta") is not True or spec()[node["cls"]]["lw"]:
+        # (the meta flag plays no role for a lightweight task used as pre-task or init task)
         return None
     sp = spec()[node["cls"]]["params"]
     cands = [p for p, (kind, tp, d, req) in sp.items() if kind == "p" and tp in ("int", "str") and p not in _patched(bp, k)]
